@@ -108,14 +108,21 @@ def main():
     dest = os.path.join(VERIF, "seeded", args.name)
     os.makedirs(dest, exist_ok=True)
     for f in ("patch.diff", "demo.cpp", "build_demo.sh", "notes.md"):
-        if os.path.exists(os.path.join(seed_dir, f)):
+        if os.path.exists(os.path.join(seed_dir, f)) and os.path.abspath(seed_dir) != os.path.abspath(dest):
             shutil.copy(os.path.join(seed_dir, f), dest)
+    old = os.path.join(dest, "meta.json")
+    if os.path.exists(old):
+        try:
+            prev = json.load(open(old))
+            for k in ("summary", "needs_to_manifest", "history", "delivered_by"):
+                if k in prev:
+                    meta[k] = prev[k]
+        except Exception:
+            pass
     if args.needs:
         meta["needs_to_manifest"] = args.needs
-    else:
-        notes = os.path.join(seed_dir, "notes.md")
-        if os.path.exists(notes):
-            meta["needs_to_manifest"] = "see notes.md"
+    elif "needs_to_manifest" not in meta:
+        meta["needs_to_manifest"] = "see notes.md"
     with open(os.path.join(dest, "meta.json"), "w") as f:
         json.dump(meta, f, indent=1)
         f.write("\n")
